@@ -26,7 +26,7 @@ def accounting(frame, ego_q, n, m, policy, crit_kind, e_labels, g_labels, sym_th
     if not sym_thr:  # keep the larger scenes linear: concrete pass/fail thresholds
         thr = [2.0, 1.0]
     else:
-        thr = [real(f"pass_fail_thr_{i}", 0, 10, lo_strict=True) for i in range(len(TARGETS))]
+        thr = [real(f"pass_fail_thr_{i}", 0, 10) for i in range(len(TARGETS))]  # 0 included: nothing beats a zero threshold
     # one estimate and one ground truth: separate lanes (2-D geometry); larger scenes: everything on one lane, so that
     # every distance is |dx| (linear) and objects may coincide
     lane_e = (lambda i: LANES[i]) if n + m <= 2 else (lambda i: 0.0)
